@@ -38,6 +38,8 @@ var handCorpus = []string{
 	`<% let f = fn(p) { return p ~= "^t" } %><%= f("tea") %><%= f("sea") %>`,
 	// per-execution data (gid is different in every execution of the concurrency scenarios)
 	`<%= if (gid) { %><%= gid ~= gid %>|<%= "zzz" ~= gid %>|<%= gid %>|<%= {k: gid}["k"] %>|<%= [gid][0] %><% } else { %>no gid<% } %>`,
+	// a helper that writes into its (auto-supplied or literal) options map
+	`<%= opt() %>|<%= opt({a: 1}) %>|<%= for (v) in [1, 2, 3] { %><%= opt() %><% } %>|<% let f = fn() { return opt() } %><%= f() %><%= f() %>`,
 	`<%= 1 / 0 %>`,
 	`<%= 1 +`,
 	`<% if (true) { %>open`,
